@@ -454,11 +454,14 @@ unsafe fn do_spawn<F: PreExec>(
     let (ours, theirs) = setup_io(default_stdio, needs_stdin, stdin, stdout, stderr)?;
     let sync_pipe = rusl::unistd::pipe2(OpenFlags::O_CLOEXEC)?;
     let (read_pipe, write_pipe) = (sync_pipe.in_pipe, sync_pipe.out_pipe);
+    // Close both ends on every way out of here, each is closed exactly once
+    let read_guard = OwnedFd(read_pipe);
+    let write_guard = OwnedFd(write_pipe);
     let child_pid = rusl::process::fork()?;
     // From this point we're two processes
     if child_pid == 0 {
         // Executing as child process
-        let _ = rusl::unistd::close(read_pipe);
+        drop(read_guard);
         if let Some(fd) = theirs.stdin.fd() {
             rusl::unistd::dup2(fd, STDIN)?;
         }
@@ -505,7 +508,7 @@ unsafe fn do_spawn<F: PreExec>(
         let _ = rusl::unistd::write(write_pipe, &bytes);
         rusl::process::exit(1);
     }
-    let _ = rusl::unistd::close(write_pipe);
+    drop(write_guard);
     let mut process = Process {
         pid: child_pid,
         status: None,
